@@ -43,6 +43,9 @@ pub struct Reference {
     pub uncut: bool,
     /// smallest particle separation in units of the pair's sigma
     pub min_reduced_distance: f64,
+    /// condition number of the sum: (cell size / smallest separation); rounding of a position
+    /// by one ulp changes an r^-12 term by ~12 ulp x this factor
+    pub conditioning: f64,
 }
 
 fn kernel(a: &LjAtom, pa: [f64; 2], b: &LjAtom, pb: [f64; 2]) -> f64 {
@@ -62,7 +65,7 @@ pub fn reference(atoms: &[LjAtom], pl: &[Affine], lat: &Lattice, uncut_reach_sig
     let alike = atoms.iter().all(|a| a.sigma == atoms[0].sigma && a.eps == atoms[0].eps && a.cutoff == atoms[0].cutoff);
     let placed: Vec<Vec<[f64; 2]>> = pl.iter().map(|t| atoms.iter().map(|a| t.apply(a.p)).collect()).collect();
     let (va, vb) = (lat.va(), lat.vb());
-    let mut r = Reference { energy: 0., energy_law: if alike { Some(0.) } else { None }, mag: 0., attractive: 0., in_cell_pairs: 0, image_pairs: 0, max_lattice_index_with_energy: 0, beyond_third_shell: 0., degenerate: false, uncut, min_reduced_distance: f64::INFINITY };
+    let mut r = Reference { energy: 0., energy_law: if alike { Some(0.) } else { None }, mag: 0., attractive: 0., in_cell_pairs: 0, image_pairs: 0, max_lattice_index_with_energy: 0, beyond_third_shell: 0., degenerate: false, uncut, min_reduced_distance: f64::INFINITY, conditioning: 1. };
     // ordered pairs (i, (j,t)) with weight 1/2: i.e. every unordered pair once
     for i in 0..n {
         for j in 0..n {
@@ -124,6 +127,10 @@ pub fn reference(atoms: &[LjAtom], pl: &[Affine], lat: &Lattice, uncut_reach_sig
             }
         }
     }
+    let smin = atoms.iter().map(|a| a.sigma).fold(f64::INFINITY, f64::min);
+    let dmin = (r.min_reduced_distance * smin).max(1e-300);
+    let extent = lat.a.abs() + lat.b.abs() + 2. * ext;
+    r.conditioning = (extent / dmin).max(1.);
     let nf = n.max(1) as f64;
     r.energy /= nf;
     r.mag /= nf;
@@ -154,10 +161,13 @@ fn wrap(x: f64) -> f64 {
 
 /// tolerance for comparing a library score with a reference
 fn tolerance(r: &Reference) -> f64 {
+    // rounding: 1e-9 of the term magnitudes, more when particles nearly coincide (the r^-12
+    // terms amplify the rounding of the coordinates by 12 x cell size / separation)
+    let rounding = (1e-9 + 100. * f64::EPSILON * r.conditioning) * r.mag + 1e-12;
     if r.uncut {
-        0.03 * r.attractive + 1e-9 * r.mag + 1e-12
+        0.03 * r.attractive + rounding
     } else {
-        1e-9 * r.mag + 1e-12
+        rounding
     }
 }
 
@@ -196,7 +206,7 @@ pub fn check(c: &Case, st: &mut Stats) {
     let tol = tolerance(&r);
     // 1. absolute: score = - lattice energy per molecule
     if !((s + r.energy).abs() <= tol) {
-        let what = if !uncut && r.beyond_third_shell > tol {
+        let what = if r.beyond_third_shell > 0.5 * tol {
             // every image inside the cutoff must be counted, however far in cell indices
             "images-beyond-third-shell-inside-cutoff"
         } else {
@@ -250,7 +260,7 @@ pub fn check(c: &Case, st: &mut Stats) {
                         let a2 = lj_atoms(&s2.shape);
                         let pl2: Vec<Affine> = s2.cartesian_positions().map(|t| to_affine(&t)).collect();
                         let r2 = reference(&a2, &pl2, &lattice_of(&s2.cell), 12.);
-                        let what = if !uncut && (r1.beyond_third_shell > 0. || r2.beyond_third_shell > 0.) {
+                        let what = if r1.beyond_third_shell > 0.5 * tolerance(&r1) || r2.beyond_third_shell > 0.5 * tolerance(&r2) {
                             "images-beyond-third-shell-inside-cutoff"
                         } else {
                             "score-jumps-when-a-copy-crosses-a-cell-face"
@@ -270,7 +280,7 @@ pub fn check(c: &Case, st: &mut Stats) {
                     let a2 = lj_atoms(&s2.shape);
                     let pl2: Vec<Affine> = s2.cartesian_positions().map(|t| to_affine(&t)).collect();
                     let r2 = reference(&a2, &pl2, &lattice_of(&s2.cell), 12.);
-                    let what = if !uncut && (r.beyond_third_shell > 0. || r2.beyond_third_shell > 0.) {
+                    let what = if r.beyond_third_shell > 0.5 * tol || r2.beyond_third_shell > 0.5 * tolerance(&r2) {
                         "images-beyond-third-shell-inside-cutoff"
                     } else {
                         "same-crystal-different-score"
